@@ -110,6 +110,14 @@ class P:
             t = [rnd.choice(SHORT) for _ in range(rnd.randint(2, 5))]
             mc.append(mk(t, rnd.choice(MODES) if rnd.random() < 0.9 else rnd.randint(0, 15), rnd.choice([b"", b"a", b"b", b"ab", b"ba", b"aab", b"*", b"\n"])))
 
+        # Match is a function of its arguments: a list of patterns and the single pattern spelled like its |-join, one after the other
+        # in the same process (the cases of a part run in order within a chunk), in both orders
+        for x_, y_ in ((b"a", b"b"), (b"x", b"y"), (b"p\\", b"q"), (b"*a", b"b?"), (b"[ab]", b"c"), (b"", b"a")):
+            for mode_ in MODES:
+                for s_ in (x_, y_, x_ + b"|" + y_, b"b", b"q", b""):
+                    trio = [mk([x_, y_], mode_, s_), mk([x_ + b"|" + y_], mode_, s_), mk([x_, y_], mode_, s_)]
+                    mc += trio + trio[1:]
+
         def cmp(c, i, m):
             return "unmodelled" in m or i == m
 
